@@ -77,9 +77,21 @@ def shared_core_sites(gene):
     return {p: o for p, o in by.items() if len(o) > 1}
 
 
+def shared_core_sites_with_insertion(gene):
+    by = collections.defaultdict(list)
+    for (pos, op), v in gene.mutations.items():
+        if v[0] is not None:
+            by[pos].append(op)
+    return {p: o for p, o in by.items() if len(o) > 1 and any(x.startswith("ins") for x in o)}
+
+
 def add_orphans(rng, gene, table, depth):
-    """Rule witness (one novel variant per site): observe two catalogued core variants at ONE site."""
+    """Rule witness (one novel variant per site): observe two catalogued core variants at ONE site; an insertion does
+    not count towards that rule (it sits between two bases), so an insertion + another variant may both be novel."""
     sh = shared_core_sites(gene)
+    shi = shared_core_sites_with_insertion(gene)
+    if shi and (not sh or rng.random() < 0.5):
+        sh = shi
     if not sh:
         return table
     pos = rng.choice(sorted(sh))
@@ -143,7 +155,7 @@ def _cases_task(task):
             table = evidence.plant(g, bag, depth=20, sites=sites_all)
             if rng.random() < 0.3:
                 table = evidence.perturb(rng, table, level=0.2, gene=g)
-            if rng.random() < 0.2:
+            if rng.random() < 0.3:
                 table = add_orphans(rng, g, table, 20)
             low = None
             gap = rng.choice([0, 0, 0.1])
@@ -203,20 +215,24 @@ def run(ctx):
     tasks = []
     for j in range(12 if quick else 60):
         tasks.append(("toy", rng.choice(["hg19", "hg38"]), rng.randrange(1 << 30), 100 if quick else 200, "noisy"))
-    genes_ = SMALL_GENES[:5] if quick else SMALL_GENES
+    genes_ = (SMALL_GENES[:5] + ["ugt1a1"]) if quick else SMALL_GENES   # ugt1a1: two catalogued insertions at one site
     for gname in genes_:
         for genome in (["hg19"] if quick else ["hg19", "hg38"]):
             for j in range(1 if quick else 6):
                 tasks.append((gname, genome, rng.randrange(1 << 30), 100 if quick else 250, "planted"))
     for gname in BIG_GENES:
         for genome in ["hg19", "hg38"]:
-            for j in range(2 if quick else 12):
-                tasks.append((gname, genome, rng.randrange(1 << 30), 40 if quick else 200, "planted"))
+            # small tasks: one CYP2D6 model in a few hundred keeps CBC busy for 10+ minutes (seen: VERIF_SEED=1, hg38, two
+            # orphan variants at an insertion site); the watchdog gives such a task up (counted as skipped, never a verdict)
+            for j in range(8 if quick else 80):
+                tasks.append((gname, genome, rng.randrange(1 << 30), 10 if quick else 30, "planted"))
     rows, meta, skipped = [], {}, 0
-    for r, m, s in par.pmap(_cases_task, tasks):
+    for r, m, s in par.pmap(_cases_task, tasks, timeout=150 if quick else 900, default=lambda t: ([], {}, t[3])):
         rows += r
         meta.update(m)
         skipped += s
+    if par.TIMED_OUT:
+        ctx.parts["tasks_killed_by_watchdog"] = [repr(x)[:200] for x in par.TIMED_OUT]
     for cid, m in meta.items():
         key = (m["gene"], tuple(sorted(m["struct"])), json.dumps(m["table"], sort_keys=True), m["gap"])
         ctx.count(1, key=hash(key), nontrivial=m["ncombos"] >= 2)
